@@ -241,3 +241,172 @@ def gcc_probe(builts: List[Built]) -> List[Tuple[str, List[int], List[int]]]:
         return bad
     finally:
         shutil.rmtree(d, ignore_errors=True)
+
+
+# ------------------------------------------------------------------------------------------------
+# end-to-end family: the same property through the YAML front end (Parser.parse -> handle_def -> add_fields ->
+# validate_msg_def), including field-list reuse (`fields: OTHER`), struct members and struct arrays.
+#
+# A group is a list of (name, body, kind): body is a list of members ("n", width, len) | ("r", other name, len), or the
+# string name of an earlier definition (field-list reuse); kind is "s" (struct_defs) or "m" (message_defs).
+# Every accepted definition becomes one case for drv_layout; the IN tokens carry the *natural* alignment of each member,
+# computed here from the group (never read from the parser), and the element size the parser recorded for the member
+# definition (itself checked in its own case).
+# ------------------------------------------------------------------------------------------------
+
+def _yaml_of(defs) -> str:
+    sd, md = [], []
+    mid = 1000
+    for name, body, kind in defs:
+        tgt = sd if kind == "s" else md
+        tgt.append(f"  {name}:")
+        if kind == "m":
+            tgt.append(f"    id: {mid}")
+            mid += 1
+        if isinstance(body, str):
+            tgt.append(f"    fields: {body}")
+        else:
+            tgt.append("    fields:")
+            for i, (k, what, length) in enumerate(body):
+                t = NATIVE[what] if k == "n" else what
+                tgt.append(f"      u{i}: {t}" + (f"[{length}]" if length is not None else ""))
+    out = []
+    if sd:
+        out += ["struct_defs:"] + sd
+    if md:
+        out += ["message_defs:"] + md
+    return "\n".join(out) + "\n"
+
+
+def _natural(defs) -> Dict[str, Tuple[int, list]]:
+    """name -> (natural alignment, user member list after resolving reuse)"""
+    nat: Dict[str, Tuple[int, list]] = {}
+    for name, body, _ in defs:
+        if isinstance(body, str):
+            nat[name] = nat[body]
+        else:
+            a = max([(what if k == "n" else nat[what][0]) for k, what, _l in body] or [1])
+            nat[name] = (a, body)
+    return nat
+
+
+def _parse_group(auto_pad: bool, defs, d: str):
+    P, p = _parser(auto_pad)
+    path = os.path.join(d, "g.yaml")
+    # struct_defs are parsed before message_defs: order the prefix the same way
+    open(path, "w").write(_yaml_of(defs))
+    try:
+        p.parse(path)
+    except BaseException as e:  # noqa: BLE001
+        if isinstance(e, (KeyboardInterrupt, SystemExit)):
+            raise
+        return P, None, e
+    return P, p, None
+
+
+def run_yaml_group(gid: str, auto_pad: bool, defs) -> List[Tuple[str, List[str]]]:
+    """Returns [(case id, protocol lines)] — one case per definition up to and including the first rejected one."""
+    # the parser handles every struct_def of a file before any message_def
+    defs = [x for x in defs if x[2] == "s"] + [x for x in defs if x[2] == "m"]
+    nat = _natural(defs)
+    d = tempfile.mkdtemp(prefix="pyrtma_verif_lay_")
+    old = os.getcwd()
+    try:
+        P, p, err = _parse_group(auto_pad, defs, d)
+        n_ok = len(defs)
+        if p is None:
+            # find the first definition the parser refuses: parse growing prefixes
+            n_ok = 0
+            for k in range(1, len(defs)):
+                P, pk, ek = _parse_group(auto_pad, defs[:k], d)
+                if pk is None:
+                    err = ek
+                    break
+                p, n_ok = pk, k
+        cases = []
+        for j, (name, body, kind) in enumerate(defs[: n_ok + (1 if n_ok < len(defs) else 0)]):
+            members = nat[name][1]
+            toks = []
+            for k, what, length in members:
+                if k == "n":
+                    a = e = what
+                else:
+                    a = nat[what][0]
+                    tgt = (p.struct_defs.get(what) or p.message_defs.get(what)) if p is not None else None
+                    if tgt is None:
+                        toks = None
+                        break
+                    e = tgt.size
+                toks.append(f"{a}:{e}:{-1 if length is None else length}:0")
+            if toks is None:
+                continue
+            lines = [f"CASE {gid}.{j} {1 if auto_pad else 0}", "IN " + " ".join(toks)]
+            if j < n_ok:
+                s = p.struct_defs.get(name) if kind == "s" else p.message_defs.get(name)
+                ot = ["ok", str(s.alignment), str(s.size)]
+                run = 0
+                for f in s.fields:
+                    is_pad = f.name.startswith("padding_") and f.name.endswith("_")
+                    off = f.offset
+                    if is_pad and off == -1:
+                        off = run
+                    flag = "1" if (is_pad and f.type_name == "char") else ("2" if is_pad else "0")
+                    ot.append(f"{f.alignment}:{f.type_obj.size}:{-1 if f.length is None else f.length}:{flag}@{off}")
+                    run += f.size
+                lines.append("OBS " + " ".join(ot))
+                try:
+                    cls = p.get_ctype_cls(s)
+                    offs = [getattr(cls, f"f{n}").offset for n in range(len(s.fields))]
+                    lines.append("CT " + " ".join(map(str, offs + [ctypes.sizeof(cls), ctypes.alignment(cls)])))
+                except Exception:
+                    pass
+            else:
+                lines.append(f"OBS err {_classify(P, err, len(members))}")
+            lines.append("END")
+            cases.append((f"{gid}.{j}", lines))
+        return cases
+    finally:
+        os.chdir(old)
+        shutil.rmtree(d, ignore_errors=True)
+
+
+def yaml_directed():
+    """field-list reuse x nesting: a small-alignment definition, a reuse of it, and the reuse used as a member"""
+    G = []
+    for w in (1, 2, 4, 8):
+        for pre in (1, 2, 4, 8):
+            for kindB in ("s", "m"):
+                base = [("n", w, None), ("n", w, 2)]
+                G.append([("A", base, "s"), ("B", "A", kindB),
+                          ("C", [("n", pre, None), ("r", "B", None), ("r", "A", 2)], kindB),
+                          ("D", [("n", pre, None), ("r", "B", 3)], "m"),
+                          ("E", "C", "m")])
+    # reuse of a definition that needed padding; reuse of a reuse; reuse of a message by a struct is not allowed order-wise
+    G.append([("A", [("n", 1, None), ("n", 4, None), ("n", 2, None)], "s"), ("B", "A", "s"), ("B2", "B", "s"),
+              ("C", [("n", 2, None), ("r", "B2", 2), ("n", 1, None)], "s")])
+    G.append([("A", [("n", 2, 3)], "s"), ("B", "A", "s"), ("C", [("n", 2, None), ("r", "B", None)], "s"),
+              ("M", "C", "m"), ("N", [("n", 1, 2), ("r", "M", 2)], "m")])
+    G.append([("A", [("n", 1, 5)], "s"), ("B", "A", "m"), ("C", [("n", 1, None), ("r", "A", 3), ("n", 8, None)], "m")])
+    return G
+
+
+def yaml_random(rng):
+    names, defs = [], []
+    n = rng.randint(2, 6)
+    for i in range(n):
+        name = f"T{i}"
+        kind = "s" if (i < n - 1 and rng.random() < 0.8) else rng.choice(["s", "m"])
+        usable = [x[0] for x in defs if x[2] == "s" or kind == "m"]
+        if usable and rng.random() < 0.3:
+            body: Any = rng.choice(usable)
+        else:
+            body = []
+            wmax = rng.choice([1, 2, 4, 8, 8])
+            for _ in range(rng.randint(1, 5)):
+                length = rng.choice([None, None, 1, 2, 3, 5])
+                if usable and rng.random() < 0.4:
+                    body.append(("r", rng.choice(usable), length))
+                else:
+                    body.append(("n", rng.choice([w for w in (1, 2, 4, 8) if w <= wmax]), length))
+        defs.append((name, body, kind))
+    return defs
